@@ -57,6 +57,9 @@ def run_one(name, tier, seed, all_checks, only=None):
         own = [x for x in res['runs'] if x['check'] == prop]
         res['caught'] = bool(own and own[0]['caught']) if not only else any(x['caught'] for x in res['runs'])
         res['caught_by'] = [x['check'] for x in res['runs'] if x['caught']]
+        if meta.get('kind') == 'refactor':
+            res['expected'] = 'silent'
+            res['silent'] = all(x['exit'] == 0 for x in res['runs'])
     finally:
         sh(f'git -C /repo worktree remove --force {wt}')
     out = 'result.json' if not only else 'result-' + '-'.join(only) + '.json'
@@ -77,6 +80,10 @@ def main():
     bad = 0
     for n in names:
         res = run_one(n, a.tier, a.seed, a.all_checks, a.checks.split(',') if a.checks else None)
+        if res.get('expected') == 'silent':
+            print(n, 'SILENT (ok)' if res.get('silent') else 'FALSE ALARM', [(x['check'], x['exit']) for x in res.get('runs', [])], res.get('error', ''))
+            bad += not res.get('silent')
+            continue
         print(n, 'CAUGHT' if res.get('caught') else 'MISSED', res.get('caught_by'), res.get('error', ''))
         bad += not res.get('caught')
     sys.exit(1 if bad else 0)
